@@ -79,6 +79,13 @@ func NewSymbols(grammar *ast.Grammar) *Symbols {
 			}
 		}
 	}
+	// The check above only sees productions defined before the string literal
+	// is used; repeat it now that all production names are known.
+	for _, lit := range symbols.stringLitList {
+		if _, exist := symbols.ntIdMap[lit]; exist {
+			panic(fmt.Sprintf("string_lit \"%s\" conflicts with production name %s", lit, lit))
+		}
+	}
 	return symbols
 }
 
